@@ -916,3 +916,43 @@ Proof.
     exists ser. split; [reflexivity|]. vm_compute in E. inversion E; subst. vm_compute. reflexivity.
   - split; [vm_compute; lia|]. split; vm_compute; reflexivity.
 Qed.
+
+(* ------------------------------------------------------------------ *)
+(* keys are distinct: reading the event into a map loses nothing       *)
+
+Lemma visible_keys_in : forall schema cfg rec names fields k,
+  In k (map fst (flat_map (field_item schema cfg rec) (combine names fields))) -> In k names.
+Proof.
+  intros schema cfg rec. induction names as [|n names IH]; intros fields k H; [destruct H|].
+  destruct fields as [|v fields]; [destruct H|].
+  cbn [combine flat_map] in H. rewrite field_item_pair in H. rewrite map_app in H. apply in_app_or in H.
+  destruct H as [H|H].
+  - destruct (is_hidden cfg n || is_nil v); [destruct H|]. cbn in H. destruct H as [<-|[]]. left. reflexivity.
+  - right. eapply IH. exact H.
+Qed.
+
+Lemma visible_keys_nodup : forall schema cfg rec names fields,
+  NoDup names -> NoDup (map fst (flat_map (field_item schema cfg rec) (combine names fields))).
+Proof.
+  intros schema cfg rec. induction names as [|n names IH]; intros fields Hn; [constructor|].
+  destruct fields as [|v fields]; [constructor|].
+  inversion Hn as [|? ? Hnot Hn']; subst.
+  cbn [combine flat_map]. rewrite field_item_pair. rewrite map_app.
+  destruct (is_hidden cfg n || is_nil v).
+  - cbn [map app]. apply IH. exact Hn'.
+  - cbn [map app fst]. constructor; [|apply IH; exact Hn'].
+    intros Hin. apply Hnot. eapply visible_keys_in. exact Hin.
+Qed.
+
+Theorem keys_distinct_lemma : forall schema cfg rec,
+  NoDup schema -> NoDup (c_env cfg) ->
+  ~ In str_environment (map fst (visible schema cfg rec)) ->
+  NoDup (map fst (visible schema cfg rec) ++ [str_environment]) /\
+  NoDup (map fst (env_pairs schema cfg rec)).
+Proof.
+  intros schema cfg rec Hs He Hne. split.
+  - apply (NoDup_Add (Add_app str_environment (map fst (visible schema cfg rec)) [])).
+    rewrite app_nil_r. split; [|exact Hne].
+    unfold visible. apply (visible_keys_nodup schema cfg rec schema (r_fields rec) Hs).
+  - unfold env_pairs. rewrite map_map. cbn [fst]. rewrite map_id. exact He.
+Qed.
